@@ -42,7 +42,7 @@ COMPONENTS = {"real": ["all of geomdl (working tree) incl. multi.SurfaceContaine
                        "process restart for the baseline: module purge + re-import instead of exec"]}
 
 TOL = 1e-8
-OP_TIMEOUT_S = float(os.environ.get("VERIF_OP_TIMEOUT_S", "4"))
+OP_TIMEOUT_S = float(os.environ.get("VERIF_OP_TIMEOUT_S", "20"))
 
 
 class OpTimeout(Exception):
@@ -515,7 +515,7 @@ def _in_child(fn, reimport_unset=False):
     import signal
     import time
     buf = b""
-    deadline = time.monotonic() + float(os.environ.get("VERIF_GRANDCHILD_TIMEOUT_S", "50"))
+    deadline = time.monotonic() + float(os.environ.get("VERIF_GRANDCHILD_TIMEOUT_S", "150"))
     while True:
         rl, _, _ = select.select([r], [], [], max(0.0, deadline - time.monotonic()))
         if not rl:
